@@ -147,10 +147,15 @@ theorem rawLiterals_decodes (lits rest : List Byte) (prev : Option Spec.Huffman.
 
 /-- CONTRACT of the literal coder (`compress_literals`; C13 slice): whatever it writes, the strict
 Spec decodes to the literals, and the table then in force is the one the coder returned, or — when
-it returned none (raw literals, or treeless) — still the previous one. -/
+it returned none (raw literals, or treeless) — still the previous one.
+The bound `lits.length < 2^20` (every caller has it: a block holds at most 128 Ki literals) is
+NECESSARY for the real coder: `rle_literals` writes `len as u32` into a 20-bit field, so without the
+bound the statement is false (`Props.C16.lit_coder_contract_unbounded_false`: 2^32 + 1 equal literals
+are written as an RLE section of ONE literal). -/
 def LitCoderCorrect {H : Type} (R : H → Spec.Huffman.Table → Prop) (cd : Coders H) : Prop :=
   ∀ (lits : List Byte) (prev : Option H) (bytes : List Byte) (t : Option H)
     (dprev : Option Spec.Huffman.Table) (rest : List Byte),
+    lits.length < 2 ^ 20 →
     (∀ h, prev = some h → ∃ d, dprev = some d ∧ R h d) →
     cd.compressLiterals lits prev = .ok (bytes, t) →
     ∃ d', Spec.decodeLiterals (bytes ++ rest) dprev = some (lits, bytes.length, d') ∧
